@@ -248,6 +248,7 @@ def run_check(check, tier, verif_seed, workers=None, budget_s=None, out=sys.stdo
         budget_s = float(os.environ.get("VERIF_BUDGET_S", "600")) if tier == "thorough" else None
     print("VERIF_SEED=%d property=%s tier=%s workers=%d" % (verif_seed, check.PROPERTY, tier, workers), file=out)
     out.flush()
+    _enter_scratch()
     if hasattr(check, "prepare"):
         check.prepare()
 
